@@ -143,3 +143,37 @@ def run_jobs(tier, props, which=('explored', 'empty', 'end', 'bound')):
             add(dict(m=[1, 1], explored=False, n_batch=1, K=1, n_live=1,
                      prov=[0]), max_paths=60000)
     return jobs
+
+
+# Harnesses are shared between properties and carry the obligations of all
+# of them.  A check reports as VIOLATION of its property only the obligations
+# labelled with that property, plus the obligations of a neighbouring
+# property that are clauses of this one as well (listed here, optionally
+# restricted to a detail).  Anything else that fails in a run is printed as
+# OTHER-PROPERTY and left to the check of the property it belongs to.
+ACCEPT = {
+    'C03': [('C02:alignment', None)],          # columns of a row stay together
+    'C05': [('C09:', None),                    # bounds are part of the file
+            ('C12:discard', None)],            # view after a resume
+    'C08': [('C07:cached-proposals-are-contained', None),
+            ('C09:read-back', None),           # "after a checkpoint round trip"
+            ('C13:trim-resets-sampling', None),
+            ('C13:split-resets-sampling', None),
+            ('C13:volume-record-current', None)],
+    'C10': [('C03:n_like', None), ('C03:calls', None),
+            ('C05:file-mirrors-state', 'n_like'),
+            ('C05:full-write-mirrors-state', 'n_like')],
+    'C12': [('C02:alignment', None),
+            ('C05:file-mirrors-state', 'discard'),
+            ('C05:file-mirrors-state', 'shell_'),
+            ('C05:full-write-mirrors-state', 'discard')],
+}
+
+
+def relevant(pid, label, detail):
+    if label.startswith(pid + ':'):
+        return True
+    for pref, sub in ACCEPT.get(pid, []):
+        if label.startswith(pref) and (sub is None or sub in (detail or '')):
+            return True
+    return False
